@@ -136,7 +136,14 @@ func (s *rangeProofStructure) verifyProofStructure(proof RangeProof) bool {
 		return false
 	}
 
-	// Validate presence of all values
+	// Validate presence of all values, and absence of any other
+	names := map[string]struct{}{}
+	for _, curRhs := range s.Rhs {
+		names[curRhs.Secret] = struct{}{}
+	}
+	if len(proof.Results) != len(names) {
+		return false
+	}
 	for _, curRhs := range s.Rhs {
 		rlist, ok := proof.Results[curRhs.Secret]
 		if !ok {
